@@ -113,6 +113,8 @@ pub struct FaultSink {
     pub flushed_len: usize,
     /// return Ok(0) on the k-th write instead of Err (WriteZero path)
     pub zero_at: usize,
+    /// the scripted write failure has kind WouldBlock instead of Other
+    pub fail_wouldblock: bool,
 }
 
 impl Write for FaultSink {
@@ -123,7 +125,8 @@ impl Write for FaultSink {
         self.writes += 1;
         if self.fail_write_at != 0 && self.writes == self.fail_write_at {
             self.failed = true;
-            return Err(io::Error::new(io::ErrorKind::Other, "scripted write failure"));
+            let kind = if self.fail_wouldblock { io::ErrorKind::WouldBlock } else { io::ErrorKind::Other };
+            return Err(io::Error::new(kind, "scripted write failure"));
         }
         if self.zero_at != 0 && self.writes == self.zero_at && !buf.is_empty() {
             self.failed = true;
